@@ -408,6 +408,12 @@ pub fn run(a: &Args) -> Option<Report> {
                         std::mem::forget(s);
                     }
                 }
+                4 => {
+                    // silent: connect and send nothing at all, left open until the end of this exporter's scenario
+                    if let Ok(s) = connect_from(peer, dst) {
+                        std::mem::forget(s);
+                    }
+                }
                 2 => {
                     // reset: SO_LINGER 0 close in the middle of a request
                     if let Ok(mut s) = connect_from(peer, dst) {
